@@ -3,7 +3,7 @@
 From Coq Require Import Arith NArith List Bool.
 Import ListNotations.
 From Cao Require Import Bits ProbeDefs HashMap HashMapProofs HandleTable HandleTableProofs
-     HandleTableConsts HandleTableInst.
+     HandleTableConsts HandleTableInst HashMapConserve HandleTableConserve.
 
 Notation CTInv := (TInv (V:=_) fib_home32).
 Notation CTLook := (lookup ueqb fib_home32).
@@ -109,3 +109,31 @@ Example C13_nonvacuous :
   map fst (snd r) = [TOUnit _; TOOptV (Some 60%N); TOOptV (Some 50%N); TOOptV (Some 50%N);
                      TOOptV (Some 60%N); TOOptV None; TONat _ 1; TONat _ 4].
 Proof. vm_compute. reflexivity. Qed.
+
+(* Conservation (drop exactly once), every history from a new table of any requested capacity,
+   allocation faults included: the values handed to the table ([tgiven]: the argument of insert,
+   the value of entry().or_insert_with when it is inserted, the value written through get_mut when
+   the handle is present, the copies a clone makes) are, as a multiset, exactly the values still
+   stored plus those the table dropped plus those remove handed back. *)
+Theorem C13_conservation :
+  forall (V : Type) (clone_v : V -> V) (c : nat) (ops : list (top V)),
+    Forall (@valid_top V) ops ->
+    let '(m', _) := crun V clone_v (ht_new V ht_min_cap_nat c) ops in
+    let '(gs, ds, rs) := tledger fib_home32 ht_needs_grow ht_grow_cap ht_min_cap_nat ht_reserve_cap clone_v
+                                 (ht_new V ht_min_cap_nat c) ops in
+    Permutation.Permutation gs (vals m' ++ ds ++ rs).
+Proof.
+  intros. apply ht_history_conserves_new; auto using fib_home32_lt, ht_needs_grow_lt, ht_grow_cap_gt,
+    ht_min_cap_ge2, ht_min_cap_pow2, ht_reserve_cap_ge.
+Qed.
+Print Assumptions C13_conservation.
+
+Theorem C13_step_conserves :
+  forall (V : Type) (clone_v : V -> V) (m : hmap unit V) (o : top V), CTInv m -> valid_top o ->
+    let '(m', out, d) := cstep V clone_v m o in
+    tbalanced m (tgiven fib_home32 ht_needs_grow ht_grow_cap ht_min_cap_nat clone_v m o out) m' d (treturned o out).
+Proof.
+  intros. apply ht_step_conserves; auto using fib_home32_lt, ht_needs_grow_lt, ht_grow_cap_gt,
+    ht_min_cap_ge2, ht_min_cap_pow2, ht_reserve_cap_ge.
+Qed.
+Print Assumptions C13_step_conserves.
